@@ -516,7 +516,8 @@ impl Topic {
     pub fn get_partition(&mut self, partition_id: u32) -> (r: Result<&mut Partition, IggyError>)
         ensures
             final(self).stream_id == old(self).stream_id && final(self).topic_id == old(self).topic_id
-                && final(self).message_expiry == old(self).message_expiry && final(self).config == old(self).config,
+                && final(self).message_expiry == old(self).message_expiry && final(self).config == old(self).config
+                && final(self).compression_algorithm == old(self).compression_algorithm,
             match r {
                 Ok(p) => old(self).partitions@.contains_key(partition_id) && *p == old(self).partitions@[partition_id]
                     && final(self).partitions@ == old(self).partitions@.insert(partition_id, *final(p)),
@@ -536,9 +537,12 @@ pub open spec fn topic_wf(t: Topic) -> bool {
 pub open spec fn not_listed(lo: Seq<u64>) -> spec_fn(Segment) -> bool { |s: Segment| !lo.contains(s.start_offset) }
 
 // an entry handed to delete_segments for partition p: ascending, and every listed start offset names a CLOSED segment of p
+pub open spec fn closed_start(segs: Seq<Segment>, o: u64) -> bool {
+    exists|i: int| 0 <= i < segs.len() && (#[trigger] segs[i]).start_offset == o && segs[i].is_closed
+}
 pub open spec fn del_entry_ok(p: Partition, lo: Seq<u64>) -> bool {
     &&& strict_u64(lo)
-    &&& forall|m: int| 0 <= m < lo.len() ==> exists|i: int| 0 <= i < p.segments@.len() && (#[trigger] p.segments@[i]).start_offset == #[trigger] lo[m] && p.segments@[i].is_closed
+    &&& forall|m: int| 0 <= m < lo.len() ==> closed_start(p.segments@, #[trigger] lo[m])
 }
 pub open spec fn del_list_ok(t: Topic, l: Seq<SegmentsToHandle>) -> bool {
     &&& forall|k: int| 0 <= k < l.len() && t.partitions@.contains_key((#[trigger] l[k]).partition_id) ==> del_entry_ok(t.partitions@[l[k].partition_id], l[k].start_offsets@)
@@ -621,6 +625,7 @@ pub proof fn lemma_block_ok_sound(p0: Partition, p1: Partition, lo: Seq<u64>)
 }
 pub open spec fn topic_frame(a: Topic, b: Topic) -> bool {
     &&& a.stream_id == b.stream_id && a.topic_id == b.topic_id && a.message_expiry == b.message_expiry && a.config == b.config
+    &&& a.compression_algorithm == b.compression_algorithm
     &&& forall|k: u32| #![trigger a.partitions@.contains_key(k)] #![trigger b.partitions@.contains_key(k)] a.partitions@.contains_key(k) <==> b.partitions@.contains_key(k)
 }
 // none of the first n entries is for partition k
@@ -684,7 +689,7 @@ pub proof fn lemma_pass_list_del_ok(t: Topic, now: int, l: Seq<SegmentsToHandle>
         let p = t.partitions@[l[k].partition_id];
         let lo = l[k].start_offsets@;
         assert(expired_list(p, now, lo));
-        assert forall|m: int| 0 <= m < lo.len() implies exists|i: int| 0 <= i < p.segments@.len() && (#[trigger] p.segments@[i]).start_offset == #[trigger] lo[m] && p.segments@[i].is_closed by {
+        assert forall|m: int| 0 <= m < lo.len() implies closed_start(p.segments@, #[trigger] lo[m]) by {
             assert(expired_start(p.segments@, p.segments@.len() as int, now, lo[m]));
             let i = choose|i: int| 0 <= i < p.segments@.len() && (#[trigger] p.segments@[i]).start_offset == lo[m] && seg_expired(p.segments@[i], now);
             assert(p.segments@[i].is_closed);
@@ -722,4 +727,25 @@ pub proof fn lemma_pass_only_expired(t0: Topic, t1: Topic, l: Seq<SegmentsToHand
             }
         }
     }
+}
+
+// R8 map-iteration schema, mutable values: `m.values_mut()` hands out one mutable reference per entry (each entry once,
+// unspecified order); what is written through them is what the map holds afterwards; keys are unchanged
+impl<K, V> HashMap<K, V> {
+    #[verifier::external_body]
+    pub fn values_mut_vec(&mut self) -> (r: Vec<&mut V>)
+        ensures
+            forall|k: K| #![trigger final(self)@.contains_key(k)] #![trigger old(self)@.contains_key(k)] final(self)@.contains_key(k) <==> old(self)@.contains_key(k),
+            exists|keys: Seq<K>| #![trigger keys.len()] keys.len() == r@.len()
+                && (forall|i: int, j: int| 0 <= i < j < keys.len() ==> keys[i] != keys[j])
+                && (forall|k: K| #[trigger] old(self)@.contains_key(k) ==> exists|i: int| 0 <= i < keys.len() && #[trigger] keys[i] == k)
+                && (forall|i: int| 0 <= i < keys.len() ==> old(self)@.contains_key(#[trigger] keys[i]) && *r@[i] == old(self)@[keys[i]] && final(self)@[keys[i]] == *final(r@[i])),
+    { unimplemented!() }
+}
+// [C14.update] for one partition: it and every one of its segments carry the new expiry; nothing else changed
+pub open spec fn part_expiry_updated(p0: Partition, p1: Partition, e: IggyExpiry) -> bool {
+    &&& p1.message_expiry == e
+    &&& p1.segments@.len() == p0.segments@.len()
+    &&& forall|i: int| 0 <= i < p0.segments@.len() ==> #[trigger] p1.segments@[i] == (Segment { message_expiry: e, ..p0.segments@[i] })
+    &&& p1 == (Partition { message_expiry: e, segments: p1.segments, ..p0 })
 }
